@@ -24,10 +24,13 @@ AbsCerts(cs) == {[signer |-> c.signer, subject |-> c.subject, expires |-> c.expi
 V(c, s) == [c |-> c, s |-> s]
 
 \* names the first clause a result breaks ("" = it is the Spec's answer)
+\* grid-manager keys are configured, but none of the configured entries is a key (damaged text): the client either
+\* refuses the configuration (ConfigRefused) or runs with "no key vouches for anybody" - never with "no grid manager"
+NoUsableKey == "configured" \in DOMAIN C /\ C.configured > 0 /\ Keys = {}
 Judge(cl, e, res) ==
   LET conn == S.conn[cl]
-      pool == Pool(conn, e.forUpload, Keys, S.certs[cl], e.now)
-      exp == ServersForPsi(conn, Preferred, e.rank, e.forUpload, Keys, S.certs[cl], e.now)
+      pool == IF e.forUpload /\ NoUsableKey THEN {} ELSE Pool(conn, e.forUpload, Keys, S.certs[cl], e.now)
+      exp == IF e.forUpload /\ NoUsableKey THEN <<>> ELSE ServersForPsi(conn, Preferred, e.rank, e.forUpload, Keys, S.certs[cl], e.now)
   IN IF res = exp THEN ""
      ELSE IF ~NoDup(res) \/ ~(ToSet(res) \subseteq conn) THEN "C32_not_connected_or_duplicate"
      ELSE IF e.forUpload /\ ~(ToSet(res) \subseteq pool) THEN "C32_UploadFilter"
@@ -55,7 +58,7 @@ VQueryBoth(e) ==
   ELSE V(Judge("B", e, e.resB), S)
 \* C33 at the place where the client consults it: upload_permitted() of the server objects
 VPermits(e) ==
-  LET bad1 == {s \in DOMAIN e.res : e.res[s] /\ GMVerdict(Keys, S.certs[e.client][s], s, e.now) = "deny"}
+  LET bad1 == {s \in DOMAIN e.res : e.res[s] /\ (NoUsableKey \/ GMVerdict(Keys, S.certs[e.client][s], s, e.now) = "deny")}
       bad2 == {s \in DOMAIN e.res : ~e.res[s] /\ GMVerdict(Keys, S.certs[e.client][s], s, e.now) = "permit"}
   IN IF bad1 # {} THEN V("C33_permitted_without_valid_certificate", S)
      ELSE IF bad2 # {} THEN V("C33_valid_certificate_denied", S)
@@ -67,6 +70,7 @@ Verdict(e) ==
     [] e.ev = "Query"     -> VQuery(e)
     [] e.ev = "QueryBoth" -> VQueryBoth(e)
     [] e.ev = "Permits"   -> VPermits(e)
+    [] e.ev = "ConfigRefused" -> V("", S)
     [] OTHER              -> V("unknown_event", S)
 
 TraceInit ==
